@@ -1217,7 +1217,9 @@ class Transaction(dns.transaction.Transaction):
         assert self.version is not None
         if self.read_only:
             self.zone._end_read(self)  # pyright: ignore
-        elif commit and len(cast(WritableVersion, self.version).changed) > 0:
+        elif commit and (
+            self.replacement or len(cast(WritableVersion, self.version).changed) > 0
+        ):
             if self.make_immutable:
                 factory = self.manager.immutable_version_factory  # type: ignore
                 if factory is None:
